@@ -109,7 +109,7 @@ def _make_case(rng, tier, damage, max_damage=4):
     if version == 1 and source == "own" and not single and rng.random() < 0.35:
         case["align"] = True        # create --align: BEP 47 padding entries in a v1 file list
     dv = 3 if case.get("align") else version      # an aligned v1 stream is laid out like a hybrid's
-    if source.startswith("ref") and version in (1, 3) and not single and rng.random() < 0.3:
+    if source.startswith("ref") and version in (1, 3) and not single and rng.random() < 0.5:
         case["attrs"] = {rel: rng.choice(["x", "h", "xh"]) for rel, _ in files if rng.random() < 0.5}
     if not damage and rng.random() < PARENT_LIKE_NAME_P:
         # only for intact content (C05 root-or-parent): with damage, which of two same-named
